@@ -125,6 +125,17 @@ def run(tier):
                       file='lltdResponder/lltdBlock.c', function='parseFrame')
     if not nreset:
         rep.broke('no Reset path found')
+    # the growth guard compares the recorded count with a constant: it bounds the list only while count = list length is kept
+    # (linking adds exactly one, a report subtracts exactly what it released, nothing else touches list or count)
+    rep.rule('R19.g', 'the count the growth guard reads is the length of the list: bookkeeping obligations R07.f / R07.g / R07.j of every cell', floor=40)
+    from .c07 import decide as list_decide, RuleView
+    list_decide(RuleView(rep, {r: 'R19.g' for r in ('R07.f', 'R07.g', 'R07.j')}), prog)
+    # the icon cache is freed through the record: what it points to is a live heap block the record owns (or NULL)
+    rep.rule('R19.h', 'the cached icon is NULL or a live heap block owned by the record after every cell (the Reset frees it)', floor=9)
+    from .frame_common import icon_invariant
+    fs_i = FrameSetup(prog, mtu_ok=True)
+    res_i, _oi, _si = run_regions(fs_i)
+    icon_invariant(rep, 'R19.h', fs_i, res_i)
     rep.analysed.update({'allocation_sites': sites, 'sites_reached_from_parseFrame': sorted(seen_sites)})
     return finish(rep, 'proof',
                   'Typestate (allocated / freed / retained) of every heap object along every abstract path of parseFrame over all 65 536 cells, both MTU modes and all fault combinations; '
